@@ -16,6 +16,8 @@ with catch-alls, string operands, operands that are instances of user-defined in
 Identity renaming (`twin_check`, and the twin of a feature model): every model is also defined a SECOND time with the same
 spelling (the same definitions executed again: new classes, equal names) and used after the first; each copy must load into
 its own classes and dump alike, and the first must be unaffected — equal spelling does not merge two models.
+Histories (harness/props/c15_hist.py): the same oracle with the nested classes of a model used on their own before / after the root,
+crossed with Meta.recursive = False and shared / number-suffixed __name__s.
 """
 from __future__ import annotations
 
@@ -774,7 +776,15 @@ def run(ctx: C.Ctx):
                 'DW/Model/GenLoad.lean): _pre_from_dict, CatchAll with / without default, raise_on_unknown_json_key, path fields (required / '
                 'default / default_factory; str / int / bool parts), all-path classes, tag keys next to CatchAll, hostile field names: body '
                 "text, ordered closure keys and globals byte for byte; the names every model statement declares vs Python's ast reading of "
-                'the source line; the function run on documents driving every branch; scoping verdict of the model.')
+                'the source line; the function run on documents driving every branch; scoping verdict of the model. '
+                'History stream (harness/props/c15_hist.py, case indices 400000+): a root wizard class (v1 / default engine) x Meta.recursive '
+                '(default / False) over 2-4 structurally different nested definitions (wizard dataclasses with their OWN Meta, plain '
+                'dataclasses, NamedTuples, TypedDicts; shared below the root; bare / list / dict / Optional / tuple positions) under the benign '
+                'and an adversarial spelling (one __name__ for several definitions with probability 0.8 each, also <shared name><small '
+                'number>, the shape of a collision suffix) driven through the SAME history: any subset of the nested classes in any order '
+                'loaded / dumped / both on their own first, then the root loaded (conforming, key-dropped, junk documents) and dumped, then '
+                'nested classes on their own again; every step must correspond (classes by identity, errors by type), every function '
+                'generated on the way compiles and is well scoped.')
     ctx.assumptions += ['strings with lone surrogates are outside the Lean Char type and not generated',
                         'field names that are attributes of JSONWizard itself (to_dict, from_json, ...) or start with "__" are excluded: '
                         'they conflict with the class API / Python name mangling, not with the generators']
@@ -813,7 +823,7 @@ def run(ctx: C.Ctx):
 
         with cap.on():
             for i in range(n_cases):
-                if ctx.done(i):
+                if ctx.done(i) or (ctx.only is not None and ctx.only >= 200000):      # (replay of a case of one of the sub-streams below)
                     break
                 engine = 'v1' if i % 2 else 'default'
                 if i % 5 in (1, 3):
@@ -910,6 +920,9 @@ def run(ctx: C.Ctx):
                 for t in maps['text'].values():
                     repr_strs.append(t)
                 del cap.batches[n_before:]
+            # ---- histories: nested classes used on their own before / after the root (harness/props/c15_hist.py)
+            from . import c15_hist
+            c15_hist.run_hist(ctx, fld_pool, cls_pool, cap, check_generated)
         # ---- correspondence: quoting and naming schemes
         if ctx.model_available and ctx.only is None:
             strs = sorted(set(repr_strs + [rng.choice(ADV_TEXT) + chr(rng.choice([0, 7, 27, 39, 34, 92, 127, 128, 160, 173, 0x378, 0x2028, 0xe000, 0xfffe, 0x10ffff]))
